@@ -45,7 +45,7 @@ func init() {
 	})
 	register(&Prop{
 		ID:    "C12",
-		Rules: []func(*core.Ctx){RStale, RPool, RQuickSame, RSelfRun},
+		Rules: []func(*core.Ctx){RStale, RPool, RQuickSame, RSelfRun, RLoopMatch},
 		Explanation: "R-STALE: interprocedural must-write / may-read-before-write analysis on SSA over every field of the pooled Runner and of the Match it owns, starting at (*Runner).scan with all non-persistent fields stale; R-RESTORE, R-DETACH, R-BUFLEN, R-CACHEKEY: pairing / ordering checks on the pool return path, the detach of handed-out matches, pooled buffer re-slicing and the replacement cache key. " +
 			"Necessary for history independence (a field read before written leaks the previous call). Equality with a fresh Regexp as such is NOT decided.",
 	})
@@ -129,7 +129,7 @@ func init() {
 	})
 	register(&Prop{
 		ID:    "C09",
-		Rules: []func(*core.Ctx){RRepConst, RRepCases, RRepID, RCommitPos, RCompact, rDirFoldOnly, RSlot, RCapsKey},
+		Rules: []func(*core.Ctx){RRepConst, RRepCases, RRepID, RCommitPos, RCompact, RLoopMatch, rDirFoldOnly, RSlot, RCapsKey},
 		Explanation: "R-REPCONST (encoder and decoder of replacement rules are the same affine map over equal constants), R-REPCASES (every special token has an arm in both expansion functions; the right-to-left expansion collects pieces last-to-first), R-COMPACT (balancing compaction precedes every expansion of the reused match; count discipline of the replace loops), R-DIRFOLD (Split and the replace drivers are direction-aware), R-SLOT (group numbers reach slots through the maps, including inside Split). " +
 			"That the pieces are concatenated with the right text in between, $-grammar ambiguities and identity of $& are NOT decided.",
 	})
